@@ -107,7 +107,7 @@ def family_requests(report, thorough):
             if p.annotation is bool:
                 doms.append([False, True])
             elif k == 0:
-                doms.append(list(range(-1, cap + 1)))
+                doms.append(list(range(-1, cap + (4 if len(params) == 1 else 1))))
             else:
                 doms.append(list(range(-1, cap + 2)))
         grid = list(itertools.product(*doms))
@@ -173,3 +173,17 @@ def run(ck, report, rng, thorough=False, which=("perm", "fam")):
         if orig is not None:
             CGD.create = orig
     return n_cmp
+
+
+def gen_tie(ck, modname, theorems, which):
+    """The tie by translation: the source is regenerated into Lean on every run; the theorems `generated = model`
+    (module `CvProps.<modname>`) are re-checked against it, and the generated definitions are executed against Python."""
+    from cv.core import VERIF
+    from extract import regen
+
+    if modname and theorems and os.path.exists(os.path.join(VERIF, "lean", "CvProps", modname + ".lean")):
+        ck.gen_obligations("CvProps." + modname, theorems, "translated source")
+    rep = regen.PYLEAN_REPORT or {}
+    ck.extra["translated_functions"] = {k: v for k, v in rep.items() if k != "changed"}
+    n = run(ck, rep, ck.rng, thorough=ck.thorough, which=which)
+    ck.extra["regenerated_definitions_executed_against_python"] = n
